@@ -765,6 +765,8 @@ class FnAnalysis:
             n = (1, 1) if a.kind in ('byte', 'u8') else {'u16': (2, 2), 'u32': (4, 4), 'u64': (8, 8)}.get(a.kind) or (self.length(a.elem, a.block, depth + 1) if a.elem is not None else (0, INF))
             if last(a.callee) == 'push':
                 n = (1, 1)
+            if a.kind == 'bytesplit':
+                n = (len(a.elem.args),) * 2
             mult = (1, 1)
             if a.in_loop:
                 mult = (0, INF)
@@ -816,6 +818,9 @@ class FnAnalysis:
                 continue
             if a.in_loop or (after_possible and not before) or a.kind.startswith('other'):
                 return None
+            if a.kind == 'bytesplit':
+                const += len(a.elem.args)
+                continue
             if a.kind in ('byte', 'u8') or last(a.callee) == 'push':
                 const += 1
                 continue
